@@ -562,6 +562,9 @@ def sc_c09(env, t, v, cfg):
     if t[0] == "uref" and arg is None:
         env.reach()
         return
+    if cfg.get("src") == "view" and t[0] != "uref":
+        # the source is a view rebuilt from (buffer, offset), as every nested field / item / reference target is
+        arg = cls._from_buffer(src._buffer, src._offset)
     m = env.mark()
     try:
         if where == "same":
@@ -629,6 +632,51 @@ def sc_c09(env, t, v, cfg):
         read_ok(env, t, src, exp_src, f"C09 write to the {'copy' if target_is_copy else 'original'} at {path}: original as expected")
         read_ok(env, t, cp, exp_cp, f"C09 write to the {'copy' if target_is_copy else 'original'} at {path}: copy as expected")
     neighbours_intact(env, B, "by copying")
+    env.reach()
+
+
+def sc_c09_nested(env, t, v, cfg):
+    """copy-construct from NESTED views: a field, an array item or a reference target of a live object is
+    the source (that is how such parts are always materialised)"""
+    B = construct(env, t, v, cfg)
+    where = cfg["copy_to"]
+    picks = [(p, ct, cv) for p, ct, cv in V.compounds(t, v) if p]
+    picks = (picks[:1] + [q for q in picks if tg.has_ref(q[1])][:1] + picks[-1:])[:3]
+    for path, ct, cv in picks:
+        part = V.get_at(t, B.obj, path)
+        if part is None:
+            continue
+        ccls = tg.build(ct)
+        m = env.mark()
+        try:
+            if where == "same":
+                cp = ccls(part, _buffer=B.buf)
+            elif where == "other":
+                cp = ccls(part, _buffer=env.buffer(tag="d" + str(len(path)), N=cfg.get("N", 1), alignment=cfg.get("alignment", 1), ctx=B.buf.context, roomy=cfg.get("roomy")))
+            else:
+                cp = ccls(part, _context=env.context("c2"))
+        except BaseException as ex:
+            if not isinstance(ex, Exception):
+                raise
+            env.check(False, f"C09 copy-construction from the nested part {path} ({where}) raised {type(ex).__name__}: {str(ex)[:80]}")
+            continue
+        exp = V.expected(ct, cv)
+        read_ok(env, ct, cp, exp, f"C09 copy of the nested part {path} ({where} buffer) equals it")
+        read_ok(env, t, B.obj, B.exp, f"C09 the enclosing object is unchanged by copying its part {path}")
+        if where == "same":
+            ps, cs = own_size(ct, part), own_size(ct, cp)
+            env.check(sor(env, sle(env, part._offset + ps, cp._offset), sle(env, cp._offset + cs, part._offset)), f"C09 storage of the copy and of the nested part {path} is disjoint")
+        for rpath, rt, rv in ref_slots(ct, cv):
+            if not rpath or rv is None:
+                continue
+            a, b = V.get_at(ct, part, rpath), V.get_at(ct, cp, rpath)
+            if a is None or b is None:
+                env.check(False, f"C09 non-null reference reads back as None in the copy of {path} ({rpath})")
+                continue
+            env.check(b._buffer is cp._buffer, f"C09 reference in the copy of a nested part resolves inside the copy's buffer ({rpath})")
+            if where == "same":
+                env.check(env.eq(a._offset, b._offset), f"C09 same buffer: the copy of a nested part refers to the same referent ({rpath})")
+    neighbours_intact(env, B, "by copying nested parts")
     env.reach()
 
 
@@ -791,25 +839,40 @@ def sc_c10(env, t, v, cfg):
             if tg.has_ref(ct) or True:
                 sig0 = struct_sig(env, t, v, obj)  # part offsets legitimately move; sizes of the whole are checked by read-back
             continue
-        elif st[0] == "setc":
-            if not comps:
+        elif st[0] in ("setc", "seta"):
+            pool = comps
+            if st[0] == "seta":
+                # whole multi-dimensional arrays of scalars (also the root), given as ndarrays
+                pool = [(p, ct, cv) for p, ct, cv in V.compounds(t, v) if ct[0] == "array" and ct[1][0] == "scalar" and len(ct[2]) >= 2 and not behind_ref(t, v, p) and (not p or V.type_at(t, v, p)[0][0] not in ("ref", "uref"))]
+            if not pool:
                 continue
-            path, ct, cv = comps[st[1] % len(comps)]
-            # a whole nested array/struct of equal size: same shape, other leaf values
+            path, ct, cv = pool[st[1] % len(pool)]
+            # a whole nested array/struct of equal size: same shape, other (pairwise distinct) leaf values
             nv = cv
             for p2, lt2, x2 in V.leaves(ct, cv):
-                f = fitting_value(lt2, x2, stepno + 2)
-                if f is not None and p2:
+                if not p2:
+                    continue
+                if lt2[0] == "scalar" and isinstance(x2, (int, float)) and not isinstance(x2, bool) and abs(x2) < 121 and x2 == x2:
+                    f = x2 + 1 + stepno  # the ordinary sample values are small and distinct: shifting keeps them so
+                else:
+                    f = fitting_value(lt2, x2, stepno + 2)
+                if f is not None:
                     nv = V.replace_at(ct, nv, p2, f)
+            given = nv
+            if ct[0] == "array" and ct[1][0] == "scalar" and (stepno % 2 == 0 or st[0] == "seta"):
+                given = V.to_form(ct, nv, "ndarray")  # whole arrays of scalars are also assigned as ndarrays
             try:
-                V.set_at(t, via, path, nv)
+                if path:
+                    V.set_at(t, via, path, given)
+                else:
+                    via._update(given)
             except BaseException as ex:
                 if not isinstance(ex, Exception):
                     raise
                 env.check(False, f"C10 assignment of an equal-size compound at {path} raised {type(ex).__name__}: {str(ex)[:80]}")
                 break
-            exp = V.replace_at(t, exp, path, V.expected(ct, nv))
-            what = f"C10 step {stepno}: set whole compound {path}"
+            exp = V.replace_at(t, exp, path, V.expected(ct, nv)) if path else V.expected(ct, nv)
+            what = f"C10 step {stepno}: set whole compound {path or 'root'}"
         else:
             g = env.int(f"g{gi}", 1, 2**40)
             gi += 1
@@ -1071,6 +1134,7 @@ SCENARIOS = {
     "c06": sc_c06,
     "c08": sc_c08,
     "c09": sc_c09,
+    "c09n": sc_c09_nested,
     "c10": sc_c10,
     "c11": sc_c11,
 }
